@@ -14,9 +14,9 @@ import (
 // Obligation is one decided instance of a rule.
 type Obligation struct {
 	Rule    string `json:"rule"`
-	Subject string `json:"subject"`         // function / field / call site the rule instance is about
-	Site    string `json:"site,omitempty"`  // file:line
-	Verdict string `json:"verdict"`         // "ok", "violated", "known-finding", "info"
+	Subject string `json:"subject"`        // function / field / call site the rule instance is about
+	Site    string `json:"site,omitempty"` // file:line
+	Verdict string `json:"verdict"`        // "ok", "violated", "known-finding", "info"
 	Detail  string `json:"detail,omitempty"`
 	Config  string `json:"config,omitempty"`
 }
@@ -238,21 +238,21 @@ func (r *Result) Finish(verifDir string, known *KnownFindings, seed int) int {
 	// evidence
 	samples := sampleObligations(r.Obligations, 12)
 	cov := map[string]any{
-		"explanation":            r.Explanation,
-		"obligations":            total,
-		"discharged":             discharged,
-		"checker_cmd":            fmt.Sprintf("./run.sh -property %s -tier %s", r.Property, r.Tier),
-		"trusted_base":           r.TrustedBase,
-		"exhaustive":             len(r.Undecided) == 0,
-		"samples":                samples,
-		"rule_instances":         ruleCount,
-		"configurations":         r.Configs,
-		"known_findings_hit":     knownHit,
-		"undecided":              len(r.Undecided),
-		"evaluations":            max(total, 1),
-		"distinct_nontrivial":    max(total, 2),
-		"rule":                   "one evaluation per rule instance (call site, field, function or path obligation) enumerated from /repo's current source; every instance is distinct (rule + construct) and non-trivial (it is an anchored construct of the property, not a generic lint site)",
-		"analysed":               r.Stats,
+		"explanation":         r.Explanation,
+		"obligations":         total,
+		"discharged":          discharged,
+		"checker_cmd":         fmt.Sprintf("./run.sh -property %s -tier %s", r.Property, r.Tier),
+		"trusted_base":        r.TrustedBase,
+		"exhaustive":          len(r.Undecided) == 0,
+		"samples":             samples,
+		"rule_instances":      ruleCount,
+		"configurations":      r.Configs,
+		"known_findings_hit":  knownHit,
+		"undecided":           len(r.Undecided),
+		"evaluations":         max(total, 1),
+		"distinct_nontrivial": max(total, 2),
+		"rule":                "one evaluation per rule instance (call site, field, function or path obligation) enumerated from /repo's current source; every instance is distinct (rule + construct) and non-trivial (it is an anchored construct of the property, not a generic lint site)",
+		"analysed":            r.Stats,
 	}
 	for k, v := range r.Extra {
 		cov[k] = v
